@@ -25,7 +25,7 @@ prop = Prop(
     rule=(
         "1..6 concurrent run(job_name=...) calls (unique nonce, exit code 0..255, run time 0..0.3 s, call made after a drawn number of log events, "
         "service none / sbatch options / template file, output captured or redirected to a file) throttled by the "
-        "location's slots (= maxConcurrentJobs 1..6), pollingInterval 0 / 0.05 / 0.2 / 1, drawn PENDING / COMPLETING "
+        "location's slots (= maxConcurrentJobs 1..6), pollingInterval 0.05 / 0.2 / 1, drawn PENDING / COMPLETING "
         "delays of the queue and number of polls a job outlasts, job ids starting at a drawn number, one undeploy per case: after all calls ended, or "
         "after the k-th job life-cycle event of the log with the calls still in flight or cancelled first. "
         "Non-trivial = measured from the log: two jobs were in the queue at the same time (submit of one before "
@@ -82,7 +82,7 @@ def case_strategy(draw):
     )
     return {
         "jobs": jobs,
-        "polling": draw(st.sampled_from([0.05] * 6 + [0.2] * 6 + [1, 0])),
+        "polling": draw(st.sampled_from([0.05] * 6 + [0.2] * 6 + [1])),
         "slots": draw(st.integers(1, 6)),
         "first_id": draw(st.sampled_from([1, 7, 98, 41000])),
         "pending_ms": draw(st.lists(st.sampled_from([0, 0, 20, 100]), min_size=1, max_size=3)),
